@@ -494,3 +494,24 @@ Theorem C15_source_spawn_stdin_and_group :
     MSp.stdin_null (G.run_test_inner_setup cap) = true /\ MSp.own_process_group (G.run_test_inner_setup cap) = true.
 Proof. exact gen_spawn_setup_stdin_and_group. Qed.
 Print Assumptions C15_source_spawn_stdin_and_group.
+
+(* ---- threads-required (C08) *)
+
+(* C08 "the sum of their threads-required (each capped at the test-thread count) is at most the test-thread count":
+   the weight TestRunnerInner::execute hands to the queue is ThreadsRequired::compute of the test's setting against
+   `self.test_threads` -- the runner's count, i.e. (C08_source_build_test_threads) 1 under --no-capture and the
+   command line's value over the profile's otherwise -- and the same `self.test_threads` is the queue's global limit.
+   Resolving "num-test-threads" from the profile instead removes the call the request names (not translated) or
+   changes its argument (lemma false). *)
+Theorem C08_source_threads_required :
+  forall r runner_threads ncpus,
+    G.execute_threads_required r runner_threads ncpus = MC.threads_required_weight (tr_to_model r) runner_threads ncpus.
+Proof. exact gen_threads_required_is_model. Qed.
+Print Assumptions C08_source_threads_required.
+
+Theorem C08_source_threads_required_fills_queue :
+  forall runner_threads ncpus,
+    G.execute_threads_required G.ThreadsRequired_NumTestThreads runner_threads ncpus =
+    G.execute_queue_limit runner_threads.
+Proof. exact gen_num_test_threads_fills_queue. Qed.
+Print Assumptions C08_source_threads_required_fills_queue.
